@@ -617,9 +617,19 @@ func (d *partialDoc) add(key string, val *lazyNode, options *ApplyOptions) error
 	return d.set(key, val, options)
 }
 
+// freshSelf returns a new unparsed node over the text a container was created from. The node for
+// the empty reference token is not part of the document tree; handing out one shared mutable node
+// would let a later add or move store that node inside its own parsed form (a cycle).
+func freshSelf(self *lazyNode) *lazyNode {
+	if self == nil || self.raw == nil {
+		return self
+	}
+	return newLazyNode(self.raw)
+}
+
 func (d *partialDoc) get(key string, options *ApplyOptions) (*lazyNode, error) {
 	if key == "" {
-		return d.self, nil
+		return freshSelf(d.self), nil
 	}
 
 	if d.obj == nil {
@@ -720,7 +730,7 @@ func (d *partialArray) add(key string, val *lazyNode, options *ApplyOptions) err
 
 func (d *partialArray) get(key string, options *ApplyOptions) (*lazyNode, error) {
 	if key == "" {
-		return d.self, nil
+		return freshSelf(d.self), nil
 	}
 
 	idx, err := strconv.Atoi(key)
